@@ -158,6 +158,16 @@ def C16(tier, rng):
     for k, bodies in bad.items():
         for body in bodies:
             cs.append(Case('dec.rr %s' % hx(svcb_rr(64, 1, b'\0', [pw(k, body)])), 'bad-len%d' % k))
+    # every value length 0..=40 for every kind, alone and followed by another parameter (window and RDLENGTH consistent:
+    # only the kind's own format can refuse the value)
+    for k in keys:
+        for n in range(0, 41):
+            body = bytes((7 * i + 1) % 251 for i in range(n))
+            alpn = (bytes([n - 1]) + body[:n - 1]) if n else b''
+            for bd in ((body, alpn) if k == 1 else (body,)):
+                cs.append(Case('dec.rr %s' % hx(svcb_rr(64, 1, b'\0', [pw(k, bd)])), 'every-len'))
+                if k < 65534:
+                    cs.append(Case('dec.rr %s' % hx(svcb_rr(65, 1, b'\0', [pw(k, bd), pw(65534, b'z')])), 'every-len'))
     for k in keys:
         for body in PARAM_SAMPLES[k]:
             for d in DELTAS:
